@@ -172,6 +172,48 @@ def refinement_runs(b, d, tier):
                     if r2 is not None:
                         violations.append(P.violation(PROP, "result", "run of a program with drop prints a multiset the SAX semantics (with weakening) does not admit: observed %s, SAX-admitted %s" % (r2["prints"], ref["order"]),
                                                       i, t, cfg, {"prints": r2["prints"]}, {"prints": ref["order"], "must_precede": []}))
+    # the premises of C04_prints_admitted_all2 (one OR TWO provider names per declaration) and of the NP theorems
+    # C04_prints_admitted_np_plain / _np_fwd (plain_src_b / fwf_src_b on the source: all three modes)
+    all2v = S.run_tool(b.model, "c04all2", cases, timeout=1800)
+    all2_ok = {i for i, _ in d.programs if all2v.get(i, "").split("\t")[0] == "ALL2-OK"}
+    nppv = S.run_tool(b.model, "c04npplain", cases, timeout=1800)
+    npplain_ok = {i for i, _ in d.programs if nppv.get(i, "").split("\t")[0] == "NPPLAIN-OK"}
+    npfv = S.run_tool(b.model, "c04npfwd", cases, timeout=1800)
+    npfwd_ok = {i for i, _ in d.programs if npfv.get(i, "").split("\t")[0] == "NPFWD-OK"}
+    uses_fwd = {i for i, t in d.programs if re.search(r"\bfwd\b", R.strip_comments(t))}
+    two_name_runs_compared = 0
+    for i, t in d.programs:
+        if i not in all2_ok or i in all_ok:
+            continue
+        ref = d.model[i]["async"].get("0")
+        if ref is None:
+            continue
+        for cfg, r in d.impl[i].items():
+            if cfg[0] in ("async", "sync") and not r["panic"] and r["verdict"] is not None:
+                two_name_runs_compared += 1
+                if collections.Counter(r["prints"]) != collections.Counter(ref["order"]):
+                    r2 = P.confirm(b, t, cfg, lambda res, o=ref["order"]: collections.Counter(res["prints"]) != collections.Counter(o))
+                    if r2 is not None:
+                        violations.append(P.violation(PROP, "result", "run of a program with a two-name declaration prints a multiset the SAX semantics does not admit from sax_init2: observed %s, SAX-admitted %s" % (r2["prints"], ref["order"]),
+                                                      i, t, cfg, {"prints": r2["prints"]}, {"prints": ref["order"], "must_precede": []}))
+    np_runs_compared = 0
+    for i, t in d.programs:
+        if i not in npfwd_ok:
+            continue
+        ref = d.model[i].get("np", {}).get("0")
+        if ref is None or "order" not in ref:
+            continue
+        for cfg, r in d.impl[i].items():
+            if cfg[0] == "np" and not r["panic"] and r["verdict"] is not None:
+                np_runs_compared += 1
+                if collections.Counter(r["prints"]) != collections.Counter(ref["order"]):
+                    r2 = P.confirm(b, t, cfg, lambda res, o=ref["order"]: collections.Counter(res["prints"]) != collections.Counter(o))
+                    if r2 is not None:
+                        violations.append(P.violation(PROP, "result", "non-polarized run prints a multiset the SAX semantics does not admit for this program: observed %s, SAX-admitted %s" % (r2["prints"], ref["order"]),
+                                                      i, t, cfg, {"prints": r2["prints"]}, {"prints": ref["order"], "must_precede": []}))
+    if (all_ok - all2_ok) or (npplain_ok - npfwd_ok) or (npfwd_ok - all_ok):
+        violations.append(C.Violation("the verdicts c04all / c04all2 / c04npplain / c04npfwd are not nested as the theorems say (extraction / driver problem)",
+                                      {"property": PROP, "kind": "unproven", "no_longer_checks": [{"what": "c04all2 / c04np*", "detail": str((sorted(all_ok - all2_ok)[:5], sorted(npplain_ok - npfwd_ok)[:5], sorted(npfwd_ok - all_ok)[:5]))}]}, found_input=False))
     prem_ok_not_checked = sorted(i for i in prem_ok if i in inv_fail_all)
     lin_without_premises = sorted(i for i, _ in d.programs if lin[i] and i not in prem_ok)
     sync_compared = 0
@@ -203,6 +245,13 @@ def refinement_runs(b, d, tier):
            "programs_satisfying_premises_of_C04_prints_admitted_core (parses, accepted, closed, core_src_b on the source: no premise about the annotated program)": len(core_ok),
            "programs_satisfying_premises_of_C04_prints_admitted_all (one provider name per declaration; drop and split allowed)": len(all_ok),
            "of_which_use_split": len(all_ok & uses_split),
+           "programs_satisfying_premises_of_C04_prints_admitted_all2 (one or two provider names per declaration)": len(all2_ok),
+           "of_which_have_a_two_name_declaration": len(all2_ok - all_ok),
+           "implementation_runs_of_two_name_programs_compared (async+sync)": two_name_runs_compared,
+           "programs_satisfying_premises_of_C04_prints_admitted_np_plain (all three modes; no forward/drop/split)": len(npplain_ok),
+           "programs_satisfying_premises_of_C04_prints_admitted_np_fwd (all three modes; forwards allowed, no drop/split)": len(npfwd_ok),
+           "of_which_use_fwd": len(npfwd_ok & uses_fwd),
+           "implementation_np_runs_compared_with_sax_admitted_multiset": np_runs_compared,
            "accepted_programs_outside (multi-name declarations: correspondence only)": sum(1 for i, _ in d.programs if i not in all_ok),
            "implementation_runs_of_split_programs_compared (async+sync)": split_runs_compared,
            "drop_ok_not_all_ok (would contradict the inclusion of the fragments)": sorted(drop_ok - all_ok)[:10],
